@@ -154,8 +154,9 @@ def post_determine_beta(self, samples, beta, min_step, beta_tolerance, result):
         "min_step_in": float(min_step) if min_step is not None else None,
         "min_step_out": float(new_min) if new_min is not None else None,
         "tol": float(beta_tolerance),
-        "target": getattr(self, "_target_efficiency", None),
-        "target_rate": getattr(self, "target_efficiency_rate", 1.0),
+        # the target "in force" is what the caller of the run asked for (an option lost on the way to the sampler must show)
+        "target": STATE["asked"][0] if STATE.get("asked") else getattr(self, "_target_efficiency", None),
+        "target_rate": STATE["asked"][1] if STATE.get("asked") else getattr(self, "target_efficiency_rate", 1.0),
         "adaptive_min_step": bool(getattr(self, "adaptive_min_step", False)),
         "dtype": str(to_np(samples.log_likelihood).dtype),
         "gen": STATE.get("gen", "run"),
@@ -192,6 +193,7 @@ def direct_case(case):
     dt = case["dtype"]
     g = np.random.default_rng(case["seed"])
     STATE["tag"] = f"direct/{case['xp']}"
+    STATE["asked"] = None
     for _ in range(case["n"]):
         n = int(np.exp(g.uniform(np.log(2), np.log(2000))))
         kind = KINDS[g.integers(len(KINDS))]
@@ -252,12 +254,17 @@ def run_case_whole(case):
     if g.random() < 0.4:
         t0 = float(g.uniform(0.1, 0.5))
         opts["target_efficiency"] = (t0, float(g.uniform(t0 + 0.1, 0.95)))
-        opts["target_efficiency_rate"] = float(g.choice([1.0, 2.0]))
+        opts["target_efficiency_rate"] = float(g.choice([1.0, 2.0, 3.0, 0.5]))
     else:
         opts["target_efficiency"] = float(g.uniform(0.1, 0.9))
     if g.random() < 0.3:
         opts["min_step"] = float(10 ** g.uniform(-3, -0.3))
     STATE["gen"] = "run"
+    sampler = str(g.choice(["smc", "smc", "emcee_smc"]))
+    if sampler == "emcee_smc":
+        opts.pop("rng", None)
+        opts.pop("min_step", None)
+    STATE["asked"] = (opts["target_efficiency"], opts.get("target_efficiency_rate", 1.0))
     rec = smcrun.Recorder(abort_on_stall=True, keep_vectors=False)
     import pickle
 
@@ -274,7 +281,9 @@ def run_case_whole(case):
             o["target_efficiency_rate"] = float(g.choice([1.0, 2.0, 0.5]))
         else:
             o["target_efficiency"] = float(g.uniform(0.1, 0.9))
-        o["rng"] = np.random.default_rng(int(g.integers(2**31)))
+        if sampler == "smc":
+            o["rng"] = np.random.default_rng(int(g.integers(2**31)))
+        STATE["asked"] = (o["target_efficiency"], o.get("target_efficiency_rate", 1.0))
         o["resume_from"] = payloads[max(0, len(payloads) // 2 - 1)]
         return o
 
@@ -285,26 +294,28 @@ def run_case_whole(case):
         ll = smcrun.gen_weights(g, n, kind, spread)
         sc = smcrun.Scripted(ll, lq=g.normal(0, 1, n), xp_name=xpn, dtype=str(g.choice(["float64", "float32"])))
         STATE["tag"] = f"run-scripted/{xpn} kind={kind} spread={spread:.3g}"
-        opts["sampler_kwargs"] = {"n_steps": 1}
-        smcrun.run(sc.aspire(), n, "smc", opts, identity=True, max_calls=3000, rec=rec)
+        opts["sampler_kwargs"] = {"n_steps": 1} if sampler == "smc" else {"nsteps": 1, "progress": False}
+        STATE["tag"] += f" sampler={sampler}"
+        smcrun.run(sc.aspire(), n, sampler, opts, identity=True, max_calls=3000, rec=rec)
         if len(payloads) >= 3:
             STATE["tag"] += " [continued from a checkpoint under another target]"
             STATE["counters"]["runs_continued_under_another_target"] += 1
-            smcrun.run(sc.aspire(), n, "smc", other_target(opts), identity=True, max_calls=3000, rec=smcrun.Recorder(abort_on_stall=True, keep_vectors=False))
+            smcrun.run(sc.aspire(), n, sampler, other_target(opts), identity=True, max_calls=3000, rec=smcrun.Recorder(abort_on_stall=True, keep_vectors=False))
     else:
         sig = float(10 ** g.uniform(-2, 0))
         t = Target([Coord("box", -5.0, 5.0, float(g.uniform(-2, 2)), sig) for _ in range(int(g.integers(1, 3)))])
         a, _ = make_aspire(t, xpn, seed=int(g.integers(1000)))
         STATE["tag"] = f"run-moving/{xpn} sigma={sig:.3g}"
-        opts["sampler_kwargs"] = {"n_steps": 2}
+        opts["sampler_kwargs"] = {"n_steps": 2} if sampler == "smc" else {"nsteps": 2, "progress": False}
+        STATE["tag"] += f" sampler={sampler}"
         n = int(g.integers(20, 200))
         seed_a = int(g.integers(1000))
-        smcrun.run(a, n, "smc", opts, identity=False, max_calls=3000, rec=rec)
+        smcrun.run(a, n, sampler, opts, identity=False, max_calls=3000, rec=rec)
         if len(payloads) >= 3:
             STATE["tag"] += " [continued from a checkpoint under another target]"
             STATE["counters"]["runs_continued_under_another_target"] += 1
             a2, _ = make_aspire(t, xpn, seed=seed_a)
-            smcrun.run(a2, n, "smc", other_target(opts), identity=False, max_calls=3000, rec=smcrun.Recorder(abort_on_stall=True, keep_vectors=False))
+            smcrun.run(a2, n, sampler, other_target(opts), identity=False, max_calls=3000, rec=smcrun.Recorder(abort_on_stall=True, keep_vectors=False))
 
 
 def run_case(case):
